@@ -50,11 +50,11 @@ func (w wop) String() string {
 }
 
 type subSpec struct {
-	pullID      string // "" = Pull
-	updatesOnly bool
+	pullID       string // "" = Pull
+	updatesOnly  bool
 	backpressure bool
-	masked      bool
-	when        string // before | inject | after
+	masked       bool
+	when         string // before | inject | after
 }
 
 func (s subSpec) String() string {
@@ -98,6 +98,8 @@ type subRun struct {
 	cancelled atomic.Bool
 	opened    atomic.Bool
 	openedAt  int64 // write stamp when the subscribe call returned
+	openT0    int64 // world tick when the subscribe call started / returned
+	openT1    int64
 	mu        sync.Mutex
 	view      map[string]proto.Message
 	touched   map[string]bool
@@ -115,6 +117,8 @@ type world struct {
 	col     *resource.Collection
 	subs    []*subRun
 	stamp   atomic.Int64 // advances with every write attempt
+	tick    atomic.Int64 // advances at the start and end of every write and every subscribe call
+	spans   []writeSpan  // successful creating/updating writes with their tick interval (guarded by mu)
 	// lastWriteStart[id] = stamp at which the last successful write to id started
 	mu             sync.Mutex
 	lastWriteStart map[string]int64
@@ -131,8 +135,28 @@ func (w *world) logf(format string, a ...any) {
 	w.mu.Unlock()
 }
 
+// writeSpan: a successful non-delete write to id ran during ticks [t0,t1].
+type writeSpan struct {
+	id     string
+	t0, t1 int64
+}
+
+// subscribedDuringWrite: a successful creating/updating write of id overlapped the subscribe call of sr, so the
+// subscription may have been registered between that write's commit and its publication.
+func (w *world) subscribedDuringWrite(sr *subRun, id string) bool {
+	w.mu.Lock()
+	defer w.mu.Unlock()
+	for _, sp := range w.spans {
+		if sp.id == id && sp.t0 < sr.openT1 && sp.t1 > sr.openT0 {
+			return true
+		}
+	}
+	return false
+}
+
 func (w *world) write(op wop, who int) error {
 	st := w.stamp.Add(1)
+	t0 := w.tick.Add(1)
 	var err error
 	if who == 0 || who == 8 {
 		w.opStack = append(w.opStack, &stackOp{op: op})
@@ -159,9 +183,13 @@ func (w *world) write(op wop, who int) error {
 	if w.isValue {
 		id = "value"
 	}
+	t1 := w.tick.Add(1)
 	w.mu.Lock()
 	if err == nil {
 		w.lastWriteStart[id] = st
+		if op.kind != "delete" {
+			w.spans = append(w.spans, writeSpan{id, t0, t1})
+		}
 	}
 	if w.writersOf[id] == nil {
 		w.writersOf[id] = map[int]bool{}
@@ -186,6 +214,7 @@ func (w *world) open(i int) {
 	}
 	ctx, cancel := context.WithCancel(context.Background())
 	sr.cancel = cancel
+	sr.openT0 = w.tick.Add(1)
 	opts := []resource.ReadOption{resource.WithUpdatesOnly(sr.spec.updatesOnly), resource.WithBackpressure(sr.spec.backpressure)}
 	if m := mask(sr.spec); m != nil {
 		opts = append(opts, resource.WithReadMask(m))
@@ -269,6 +298,7 @@ func (w *world) open(i int) {
 		}()
 	}
 	sr.openedAt = w.stamp.Load()
+	sr.openT1 = w.tick.Add(1)
 	w.logf("sub%d opened %v", i, sr.spec)
 }
 
@@ -287,13 +317,13 @@ type stackOp struct {
 }
 
 type scenario struct {
-	isValue  bool
-	initial  map[string]int32
-	subs     []subSpec
-	writers  [][]wop
-	order    []int // which writer moves next
-	injs     []*inj
-	parallel bool
+	isValue    bool
+	initial    map[string]int32
+	subs       []subSpec
+	writers    [][]wop
+	order      []int // which writer moves next
+	injs       []*inj
+	parallel   bool
 	lateCancel []int
 }
 
@@ -410,8 +440,8 @@ func genScenario(t *rapid.T, parallel bool) scenario {
 }
 
 const (
-	knownReorderValue = "C03:publish-reorder:value.set.afterCommit"
-	knownReorderColl  = "C03:publish-reorder:coll.update.afterCommit"
+	knownReorderValue  = "C03:publish-reorder:value.set.afterCommit"
+	knownReorderColl   = "C03:publish-reorder:coll.update.afterCommit"
 	knownReorderStress = "C03:publish-reorder:concurrent-writers"
 )
 
@@ -444,19 +474,26 @@ func runScenario(t *rapid.T, s scenario) {
 	reorderRisk := map[string]string{} // id -> known signature, when a same-id write ran inside a commit->publish window
 	depth := 0
 	if !s.parallel {
+		driver := lib.GoID()
 		verifhook.Set(func(point string) {
+			if lib.GoID() != driver {
+				// points are also passed by helper goroutines and by listeners' stop goroutines; only the driving
+				// goroutine's own progress is steered
+				return
+			}
+			// book-keeping first: the driver's innermost write has committed and is about to publish
+			if (point == "value.set.afterCommit" || point == "coll.update.afterCommit") && len(w.opStack) > 0 {
+				w.opStack[len(w.opStack)-1].inPublish = true
+			}
 			if helperActive.Load() > 0 {
-				// a helper goroutine is running a write or subscribe concurrently: this hook may be on that goroutine
-				// (possibly holding the resource's lock), so nothing is injected until it is done
+				// a helper goroutine is running a write or subscribe concurrently (possibly holding the resource's
+				// lock): nothing is injected until it is done
 				return
 			}
 			hitMu.Lock()
 			hits[point]++
 			n := hits[point]
 			hitMu.Unlock()
-			if (point == "value.set.afterCommit" || point == "coll.update.afterCommit") && len(w.opStack) > 0 {
-				w.opStack[len(w.opStack)-1].inPublish = true
-			}
 			// markRisk: anything done now to id (or a subscription opened now) can be overtaken by / duplicated with the
 			// pending publication of an enclosing write that has committed but not finished publishing
 			markRisk := func(id string, subscribe bool) {
@@ -505,7 +542,12 @@ func runScenario(t *rapid.T, s scenario) {
 						w.helpers.Add(1)
 						helperActive.Add(1)
 						done := make(chan struct{})
-						go func(op wop) { defer w.helpers.Done(); defer close(done); defer helperActive.Add(-1); _ = w.write(op, 9) }(in.w)
+						go func(op wop) {
+							defer w.helpers.Done()
+							defer close(done)
+							defer helperActive.Add(-1)
+							_ = w.write(op, 9)
+						}(in.w)
 						select {
 						case <-done:
 						case <-time.After(20 * time.Millisecond):
@@ -749,6 +791,13 @@ func runScenario(t *rapid.T, s scenario) {
 					multi := len(w.writersOf[id]) >= 2
 					w.mu.Unlock()
 					sig, risky = knownReorderStress, multi
+					if !risky && !sr.spec.backpressure && !sr.spec.updatesOnly && strings.Contains(d, "store has nothing, view has") && w.subscribedDuringWrite(sr, id) {
+						// the subscribe call overlapped a write that created/updated this id: registered between that write's
+						// commit and its publication the subscriber gets the item in its seed and again as an event, and a lossy
+						// stream then cancels that duplicate ADD against the later REMOVE (same root cause, same listed finding
+						// as the forced mode's subscribe-inside-the-window case)
+						sig, risky = knownReorderColl, true
+					}
 				}
 				if !risky || !lib.IsKnown(sig) {
 					allKnown = false
